@@ -96,6 +96,221 @@ def bc(a, b):
     raise Untranslatable(f'broadcast {a} with {b} is not modelled symbolically')
 
 
+
+# ------------------------------------------------------------------------------------------------
+# statement-level translation of the `*_seq` sweeps
+# ------------------------------------------------------------------------------------------------
+LEAN_TY = {'K': 'K', 'Nat': 'Nat', 'Rows': f'{M}.Rows K', 'Int': 'Int'}
+
+
+def _index_names(fn):
+    """names used as indices into `ns` / `out`"""
+    out = set()
+    for n in ast.walk(fn):
+        if isinstance(n, ast.Subscript) and isinstance(n.value, ast.Name) and n.value.id in ('ns', 'out') \
+                and isinstance(n.slice, ast.Name):
+            out.add(n.slice.id)
+    return out
+
+
+class Seq:
+    """python statements of a `*_seq` sweep -> one Lean term of type `Option (List K)`.
+
+    Variables are typed: K (arrays read point-wise), Nat (running indices), Rows (`out`), Int (`max_n`).
+    """
+
+    def __init__(self, fn, k_params, tuple_funcs=None, tr_kwargs=None):
+        self.fn = fn
+        self.nat_names = _index_names(fn)
+        self.tuple_funcs = dict(tuple_funcs or {})
+        self.tr0 = PTr({p: p for p in k_params}, ints=[], **(tr_kwargs or {}))
+        self.kbody = Body(self.tr0, tuple_funcs=self.tuple_funcs)
+
+    # ---- small helpers
+    def nat_expr(self, e, ty):
+        if isinstance(e, ast.Name) and ty.get(e.id) == 'Nat':
+            return f'{e.id}_'
+        raise Untranslatable(f'index expression {ast.unparse(e)}')
+
+    def order_expr(self, e, tr, ty):
+        """the order an `ns[..] == <e>` test compares with, as a Nat"""
+        if isinstance(e, ast.Constant) and isinstance(e.value, int) and e.value >= 0:
+            return str(e.value)
+        if isinstance(e, ast.Name) and e.id in tr.ints:
+            return f'(Int.toNat {e.id})'
+        raise Untranslatable(f'order expression {ast.unparse(e)}')
+
+    def int_expr(self, e, tr, ty):
+        env = {k: k for k in tr.ints}
+        for nm, t in ty.items():
+            if t == 'Int':
+                env[nm] = f'{nm}_'
+        env['ns[-1]'] = f'({M}.lastOrder ns)'
+        return Tr(env, 'int').expr(e)
+
+    def cond(self, e, tr, ty):
+        src = ast.unparse(e)
+        if isinstance(e, ast.Compare) and len(e.ops) == 1 and isinstance(e.ops[0], ast.Eq):
+            l, r = e.left, e.comparators[0]
+            if isinstance(l, ast.Subscript) and ast.unparse(l.value) == 'ns':
+                return f'ns[{self.nat_expr(l.slice, ty)}]? = some {self.order_expr(r, tr, ty)}'
+            if isinstance(l, ast.Name) and ty.get(l.id) == 'Nat' and ast.unparse(r) == 'len(ns)':
+                return f'{l.id}_ = ns.length'
+        raise Untranslatable(f'condition {src}')
+
+    # ---- one simple (non-control) statement -> (lets, tr, ty)
+    def simple(self, s, tr, ty):
+        src = ast.unparse(s)
+        if src == 'ns = list(ns)':
+            return [], tr, ty
+        if isinstance(s, ast.Assign) and len(s.targets) == 1:
+            t, v = s.targets[0], s.value
+            if isinstance(t, ast.Name) and t.id in self.nat_names:
+                if isinstance(v, ast.Constant) and isinstance(v.value, int) and v.value >= 0:
+                    return [f'let {t.id}_ : Nat := {v.value}'], tr, {**ty, t.id: 'Nat'}
+                raise Untranslatable(f'index variable assigned {ast.unparse(v)}')
+            if isinstance(t, ast.Name) and t.id == 'out':
+                if ast.unparse(v) == 'np.empty((len(ns), *x.shape), dtype=x.dtype)':
+                    return [f'let out_ : {M}.Rows K := {M}.emptyRows ns.length'], tr, {**ty, 'out': 'Rows'}
+                raise Untranslatable(f'out = {ast.unparse(v)[:50]}')
+            if isinstance(t, ast.Name) and ast.unparse(v) == 'ns[-1]':
+                return [f'let {t.id}_ : Int := {M}.lastOrder ns'], tr, {**ty, t.id: 'Int'}
+            if isinstance(t, ast.Subscript) and ast.unparse(t.value) == 'out':
+                if ty.get('out') != 'Rows':
+                    raise Untranslatable('write to out before it is allocated')
+                return [f'let out_ := {M}.setRow out_ {self.nat_expr(t.slice, ty)} {tr.expr(v)}'], tr, ty
+        if isinstance(s, ast.AugAssign) and isinstance(s.target, ast.Name) and ty.get(s.target.id) == 'Nat':
+            if isinstance(s.op, ast.Add) and isinstance(s.value, ast.Constant) and s.value.value == 1:
+                return [f'let {s.target.id}_ := {s.target.id}_ + 1'], tr, ty
+            raise Untranslatable(f'index update {src}')
+        # everything else is point-wise scalar arithmetic
+        names = assigned_names([s])
+        ls, tr2 = self.kbody.lets_for_assign(s, tr)
+        ty2 = dict(ty)
+        for nm in names:
+            ty2[nm] = 'K'
+        return ls, tr2, ty2
+
+    def var(self, nm, tr, ty):
+        if ty.get(nm, 'K') == 'K':
+            if nm in tr.env:
+                return tr.env[nm]
+            if nm in tr.ints:
+                return f'(Num.ofInt {nm})'
+            return '(Num.ofInt (0))'
+        return f'{nm}_'
+
+    def block(self, stmts, tr, ty, ind):
+        """a block without return/loops nested in an `if` or a loop body -> (lines, tr, ty)"""
+        lines = []
+        for st in stmts:
+            if isinstance(st, ast.Expr) and isinstance(st.value, ast.Constant):
+                continue
+            if isinstance(st, ast.If):
+                ls, tr, ty = self.cond_update(st, tr, ty, ind)
+            else:
+                ls, tr, ty = self.simple(st, tr, ty)
+            lines += ls
+        return lines, tr, ty
+
+    def cond_update(self, s, tr, ty, ind):
+        if s.orelse or _returns(s.body):
+            raise Untranslatable(f'conditional {ast.unparse(s.test)} with else/return in a block')
+        c = self.cond(s.test, tr, ty)
+        names = assigned_names(s.body)
+        for n in ast.walk(ast.Module(body=s.body, type_ignores=[])):
+            if isinstance(n, ast.Assign) and isinstance(n.targets[0], ast.Subscript) and 'out' not in names:
+                names = ['out'] + names
+        lines, tr2, ty2 = self.block(s.body, tr, ty, ind + '    ')
+        new = _tuple([self.var(nm, tr2, ty2) for nm in names])
+        old = _tuple([self.var(nm, tr, ty) for nm in names])
+        tys = ' × '.join(LEAN_TY[ty2.get(nm, 'K')] for nm in names)
+        i2 = ind + '    '
+        body = ('\n' + i2).join(lines + [new])
+        tag = 'st_' + '_'.join(names)
+        out = [f'let {tag} : {tys} := if {c} then\n{i2}{body}\n{ind}  else {old}']
+        env = dict(tr.env)
+        ints = set(tr.ints)
+        ty3 = dict(ty)
+        for k, nm in enumerate(names):
+            out.append(f'let {nm}_ := {_proj(k, len(names)).replace("s", tag, 1)}')
+            ty3[nm] = ty2.get(nm, 'K')
+            if ty3[nm] == 'K':
+                env[nm] = f'{nm}_'
+                ints.discard(nm)
+        return out, tr.clone(env, ints), ty3
+
+    def loop(self, s, tr, ty, ind):
+        if not (isinstance(s.target, ast.Name) and isinstance(s.iter, ast.Call) and ast.unparse(s.iter.func) == 'range'
+                and len(s.iter.args) == 2 and not s.orelse):
+            raise Untranslatable(f'loop header {ast.unparse(s).splitlines()[0]}')
+        v = s.target.id
+        lo, hi = self.int_expr(s.iter.args[0], tr, ty), self.int_expr(s.iter.args[1], tr, ty)
+        names = assigned_names(s.body)
+        if any(isinstance(n, ast.Assign) and isinstance(n.targets[0], ast.Subscript) for n in ast.walk(s)) and 'out' not in names:
+            names = names + ['out']
+        init = [self.var(nm, tr, ty) for nm in names]
+        # inside the body every carried variable is read from the state tuple
+        env = dict(tr.env)
+        tyb = dict(ty)
+        for nm in names:
+            tyb.setdefault(nm, 'K')
+            if tyb[nm] == 'K':
+                env[nm] = f'{nm}_'
+        env.pop(v, None)
+        btr = tr.clone(env, (set(tr.ints) - set(names)) | {v})
+        i2 = ind + '    '
+        lines = [f'let {nm}_ := {_proj(k, len(names))}' for k, nm in enumerate(names)]
+        ls, btr, tyb = self.block(s.body, btr, tyb, i2)
+        lines += ls
+        final = _tuple([self.var(nm, btr, tyb) for nm in names])
+        tys = ' × '.join(LEAN_TY[tyb.get(nm, 'K')] for nm in names)
+        body = ('\n' + i2).join(lines + [final])
+        loopname = f'loop_{v}'
+        out = [f'let {loopname} := {M7}.forRange {lo} {hi} (fun ({v} : Int) (s : {tys}) =>\n{i2}{body}) {_tuple(init)}']
+        env2 = dict(tr.env)
+        ints2 = set(tr.ints) - set(names)
+        ty2 = dict(ty)
+        for k, nm in enumerate(names):
+            out.append(f'let {nm}_ := {_proj(k, len(names)).replace("s", loopname, 1)}')
+            ty2[nm] = tyb.get(nm, 'K')
+            if ty2[nm] == 'K':
+                env2[nm] = f'{nm}_'
+        return out, tr.clone(env2, ints2), ty2
+
+    def run(self, stmts, tr, ty, ind='  '):
+        if not stmts:
+            raise Untranslatable('fell off the end of the function without return')
+        s, rest = stmts[0], stmts[1:]
+        if isinstance(s, ast.Expr) and isinstance(s.value, ast.Constant):
+            return self.run(rest, tr, ty, ind)
+        if isinstance(s, ast.Return):
+            if ast.unparse(s.value) != 'out' or ty.get('out') != 'Rows':
+                raise Untranslatable(f'return {ast.unparse(s.value)}')
+            return f'{M}.finishRows out_'
+        if isinstance(s, ast.If) and _returns(s.body) and not s.orelse:
+            c = self.cond(s.test, tr, ty)
+            then = self.run(s.body, tr, ty, ind + '  ')
+            return f'if {c} then {then} else\n{ind}{self.run(rest, tr, ty, ind)}'
+        if isinstance(s, ast.If):
+            ls, tr2, ty2 = self.cond_update(s, tr, ty, ind)
+        elif isinstance(s, ast.For):
+            ls, tr2, ty2 = self.loop(s, tr, ty, ind)
+        else:
+            ls, tr2, ty2 = self.simple(s, tr, ty)
+        return ('\n' + ind).join(ls + [self.run(rest, tr2, ty2, ind)])
+
+
+def translate_seq(fn, lean_name, k_params, tuple_funcs=None, extra_binders='', tr_kwargs=None):
+    got = [a.arg for a in fn.args.args]
+    if got != ['ns'] + list(k_params):
+        raise Untranslatable(f'parameters {got}')
+    sq = Seq(fn, k_params, tuple_funcs=tuple_funcs, tr_kwargs=tr_kwargs)
+    body = sq.run(fn.body, sq.tr0, {})
+    binders = ' '.join(f'({p} : K)' for p in k_params)
+    return f'def {lean_name} {extra_binders}(ns : List Nat) {binders} : Option (List K) :=\n  {body}\n'
+
+
 def _refresh_c07(repo):
     """Generated/C08.lean refers to the translated scalar evaluators of Generated/C07.lean: keep that file in step with the
     source this run looks at"""
@@ -109,9 +324,25 @@ def _refresh_c07(repo):
             f.write(text)
 
 
+def _forceable(g):
+    """testing aid: VERIF_FORCE_FALLBACK=name1,name2 makes those items untranslatable (exercises the fallback path)"""
+    import os
+    forced = set(filter(None, os.environ.get('VERIF_FORCE_FALLBACK', '').split(',')))
+    orig = g.item
+
+    def item(name, source, node_fn, build, fallback):
+        if name in forced or 'ALL' in forced:
+            def build():      # noqa
+                raise Untranslatable('forced by VERIF_FORCE_FALLBACK')
+        return orig(name, source, node_fn, build, fallback)
+    g.item = item
+    return g
+
+
 def generate(repo):
     _refresh_c07(repo)
     g = Gen('C08', imports=['PrysmVerif.PyPrelude', 'PrysmVerif.Model.C08', 'PrysmVerif.Generated.C07'], header=HDR)
+    g = _forceable(g)
     che, _ = load(repo, 'prysm/polynomials/cheby.py')
     xyf, _ = load(repo, 'prysm/polynomials/xy.py')
     zer, _ = load(repo, 'prysm/polynomials/zernike.py')
@@ -244,6 +475,27 @@ def generate(repo):
             ['powers_of_m[m] = r ** m', 'sines[m] = np.sin(m * t)', 'cosines[m] = np.cos(m * t)']
         return ok
     g.fact('zernikeSeqAzimuthNegSinPosCosTimesRPowAbsM', 'prysm/polynomials/zernike.py:zernike_nm_seq', zseq_az)
+
+
+    # ---- the `*_seq` sweeps, statement by statement
+    jac, _ = load(repo, 'prysm/polynomials/jacobi.py')
+    her, _ = load(repo, 'prysm/polynomials/hermite.py')
+    lag, _ = load(repo, 'prysm/polynomials/laguerre.py')
+    dic, _ = load(repo, 'prysm/polynomials/dickson.py')
+    for (mod, rel, py, lean, ks, tf, xb, rec) in [
+            (jac, 'jacobi.py', 'jacobi_seq', 'jacobiSeq', ['alpha', 'beta', 'x'], {'recurrence_abc': ('Generated.C07.abc', 3)},
+             '[DecidableEq K] ', f'{M}.jacobiRec alpha beta x'),
+            (her, 'hermite.py', 'hermite_He_seq', 'hermiteHeSeq', ['x'], None, '', f'{M}.heRec x'),
+            (her, 'hermite.py', 'hermite_H_seq', 'hermiteHSeq', ['x'], None, '', f'{M}.hRec x'),
+            (her, 'hermite.py', 'hermite_He_der_seq', 'hermiteHeDerSeq', ['x'], None, '', f'{M}.heDerRec x'),
+            (her, 'hermite.py', 'hermite_H_der_seq', 'hermiteHDerSeq', ['x'], None, '', f'{M}.hDerRec x'),
+            (lag, 'laguerre.py', 'laguerre_seq', 'laguerreSeq', ['alpha', 'x'], None, '', f'{M}.lagRec alpha x'),
+            (dic, 'dickson.py', 'dickson1_seq', 'dickson1Seq', ['alpha', 'x'], None, '', f'{M}.dickRec ({M7}.nat 2) alpha x'),
+            (dic, 'dickson.py', 'dickson2_seq', 'dickson2Seq', ['alpha', 'x'], None, '', f'{M}.dickRec ({M7}.nat 1) alpha x')]:
+        def build(mod=mod, py=py, lean=lean, ks=ks, tf=tf, xb=xb):
+            return translate_seq(get_def(mod, py), lean, ks, tuple_funcs=tf, extra_binders=xb)
+        g.item(py, f'prysm/polynomials/{rel}:{py}', (lambda mod=mod, py=py: get_def(mod, py)), build,
+               f'def {lean} {xb}(ns : List Nat) ({" ".join(ks)} : K) : Option (List K) := {M}.sweep ({rec}) ns')
 
     return g.finish()
 
